@@ -2649,8 +2649,17 @@ class DiskObjectStore(PackBasedObjectStore):
             sha = hex_to_sha(cast(ObjectID, sha))
 
         midx = self.get_midx()
-        if midx is not None and sha in midx:
-            return True
+        if midx is not None:
+            result = midx.object_offset(RawObjectID(sha))
+            if result is not None:
+                # The MIDX may be stale (written before a repack or gc) or may
+                # have been built for other packs: only believe it if the pack
+                # it names is still there and really has the object.
+                try:
+                    if sha in self._get_pack_by_name(result[0]):
+                        return True
+                except (KeyError, PackFileDisappeared):
+                    pass
 
         # Fall back to checking individual packs
         return super().contains_packed(sha)
